@@ -805,10 +805,260 @@ def tables_again(T, suffix="2"):
 ''' % {"T": T, "s": suffix})
 
 
-def oracle_c04(en, decl, win, strs=()):
+# ------------------------------------------------------------------------------------------------
+# call histories (Model/Enum.lean: Tables / step / run): a generated sequence of calls of the emitted methods and of the runtime
+# helpers, with declared and undeclared arguments, executed between the first observations and the re-observation of every
+# method.  The tables of the emitted file are package-level variables: no call may leave them changed.
+# ------------------------------------------------------------------------------------------------
+
+HIST_HELPERS = '''func verifHVals() string {
+	var z %(T)s
+	var p []string
+	for _, v := range z.Values() {
+		p = append(p, verifDec(v))
+	}
+	return strings.Join(p, ",")
+}
+
+func verifHVMap() string {
+	var z %(T)s
+	m := z.ValueMap()
+	ks := make([]string, 0, len(m))
+	for k := range m {
+		ks = append(ks, k)
+	}
+	sort.Strings(ks)
+	var p []string
+	for _, k := range ks {
+		p = append(p, k+"="+verifDec(m[k]))
+	}
+	return strings.Join(p, ",")
+}
+
+func verifHSMap() string {
+	var z %(T)s
+	sm := z.StringMap()
+	vs := make([]%(T)s, 0, len(sm))
+	for k := range sm {
+		vs = append(vs, k)
+	}
+	sort.Slice(vs, func(i, j int) bool { return vs[i] < vs[j] })
+	var p []string
+	for _, k := range vs {
+		p = append(p, verifDec(k)+"="+sm[k])
+	}
+	return strings.Join(p, ",")
+}
+
+func verifHRes(err error, t %(T)s) string {
+	if err == nil {
+		return "ok " + verifDec(t)
+	}
+	return "err " + verifDec(t)
+}
+'''
+
+
+def _tv_for(rng, v, prefer=None):
+    """an integer type TV that holds v"""
+    ks = list(KIND_NAMES)
+    rng.shuffle(ks)
+    if prefer:
+        ks = [prefer] + ks
+    for tv in ks:
+        l2, h2 = krange(tv)
+        if l2 <= v <= h2:
+            return tv
+    return "int64"
+
+
+def history(rng, en, decl, codec=(), bit=False, n=18):
+    """A generated call history for one enum type: a list of ops
+      ("str", x) ("valid", x) ("values",) ("strings",) ("vmap",) ("smap",) ("parse", s) ("try", s, t) ("isenum", tv, v)
+      ("ujson", (json text, lean form), t) ("utext", s, t) ("scan", (go expr, lean form), t) ("enc", codec, x)
+      ("has", x, f) ("add", x, f) ("rem", x, f)
+    Arguments mix declared values / names with undeclared ones (gaps, values beyond both ends, negative ones, with -bit unions of declared
+    flags and values with a foreign bit; differently-cased, prefixed, listed, empty and unknown spellings); IsEnum is instantiated with
+    every integer type TV.  Always present: an IsEnum call with an undeclared positive value (a union with -bit), one with a declared
+    value, one of each getter, ParseEnum / TryParseEnum with a declared and an undeclared name."""
+    T, kind = en["T"], en["kind"]
+    lo, hi = krange(kind)
+    vals = [v for _, v in decl]
+    names = [trim(T, nm_) for nm_, _ in decl]
+    und = [v for v in window(kind, vals) if v not in vals]
+    pos = [v for v in vals if v > 0]
+    unions = []
+    if bit and pos:
+        for _ in range(8):
+            u = rng.choice(pos) | rng.choice(pos)
+            if rng.random() < 0.3:
+                u |= rng.choice(pos)
+            if u not in vals and lo <= u <= hi and u not in unions:
+                unions.append(u)
+        top = max(pos)
+        unions += [v for v in [top << 1, (top << 1) | 1, (top << 1) - 1] if lo <= v <= hi and v not in vals and v not in unions]
+    undpos = [v for v in unions + und if v > 0] or [v for v in und if v != 0] or und or [vals[0]]
+    target = pick_target(kind, decl)
+
+    def anyval():
+        r = rng.random()
+        if r < 0.45:
+            return rng.choice(vals)
+        if unions and r < 0.75:
+            return rng.choice(unions)
+        return rng.choice(und) if und else rng.choice(vals)
+
+    badstrs = [names[0].lower(), names[-1].upper(), names[0].swapcase(), T + names[0], decl[0][0], "%s, %s" % (names[0], names[-1]),
+               "%s|%s" % (names[-1], names[0]), "", " ", "nosuch", str(vals[0]), names[0] + " ", names[-1][:-1]]
+    badstrs = [x for x in badstrs if x not in names]
+
+    def anystr():
+        return rng.choice(names) if rng.random() < 0.45 else rng.choice(badstrs)
+
+    def isenum(v, prefer=None):
+        return ("isenum", _tv_for(rng, v, prefer), v)
+
+    def jsonin(x):
+        r = rng.random()
+        if r < 0.7:
+            return (_json.dumps(x), ["str", Q(x)])
+        return rng.choice([("null", "null"), (str(vals[0]), "other"), ("true", "other"), ('["%s"]' % names[0], "other")])
+
+    def sqlin(x):
+        r = rng.random()
+        if r < 0.45:
+            return ("[]byte(%s)" % gostr(x), ["bytes", Q(x)])
+        if r < 0.8:
+            return (gostr(x), ["str", Q(x)])
+        return rng.choice([("int64(%d)" % max(min(vals[0], MAXI64), -MAXI64), "other"), ("nil", "other"), ("true", "other")])
+
+    ops = [isenum(rng.choice(undpos), rng.choice(["int64", None])), ("values",), isenum(rng.choice(vals)), ("parse", rng.choice(badstrs)),
+           ("strings",), ("vmap",), ("smap",), ("parse", rng.choice(names)), ("try", rng.choice(badstrs), target),
+           ("try", rng.choice(names), target), ("str", rng.choice(undpos)), ("valid", anyval())]
+    if bit:
+        f = rng.choice(pos or vals)
+        ops += [("has", anyval(), f), ("add", anyval(), f), ("rem", anyval(), rng.choice(vals))]
+    for c in codec:
+        if c == "json":
+            ops += [("ujson", jsonin(rng.choice(badstrs)), target), ("ujson", jsonin(rng.choice(names)), target), ("enc", "json", anyval())]
+        elif c == "text":
+            ops += [("utext", rng.choice(badstrs), target), ("utext", rng.choice(names), target), ("enc", "text", anyval())]
+        elif c == "sql":
+            ops += [("scan", sqlin(rng.choice(badstrs)), target), ("scan", sqlin(rng.choice(names)), target), ("enc", "sql", anyval())]
+    while len(ops) < n:
+        r = rng.random()
+        if r < 0.34:
+            ops.append(isenum(anyval()))
+        elif r < 0.44:
+            ops.append(("parse", anystr()))
+        elif r < 0.52:
+            ops.append(("try", anystr(), target))
+        elif r < 0.72:
+            ops.append(rng.choice([("values",), ("values",), ("strings",), ("vmap",), ("smap",)]))
+        elif r < 0.86:
+            ops.append(("str", anyval()))
+        elif r < 0.92 or not bit:
+            ops.append(("valid", anyval()))
+        else:
+            ops.append((rng.choice(["has", "add", "rem"]), anyval(), rng.choice(vals)))
+    rng.shuffle(ops)
+    return ops
+
+
+def history_sexp(ops):
+    out = ["hist"]
+    for op in ops:
+        k = op[0]
+        if k in ("str", "valid"):
+            out.append([k, str(op[1])])
+        elif k in ("values", "strings", "vmap", "smap"):
+            out.append([k])
+        elif k == "parse":
+            out.append([k, Q(op[1])])
+        elif k in ("try", "utext"):
+            out.append([k, Q(op[1]), str(op[2])])
+        elif k == "isenum":
+            out.append([k, op[1], str(op[2])])
+        elif k in ("ujson", "scan"):
+            out.append([k, op[1][1], str(op[2])])
+        elif k == "enc":
+            out.append([k, str(op[2])])
+        else:
+            out.append([k, str(op[1]), str(op[2])])
+    return out
+
+
+def history_go(T, ops):
+    """Go statements (inside VerifObserve) executing the history; every call's result is emitted under h<j>"""
+    src = ["\t// ---- call history: the emitted methods and the runtime helpers, declared and undeclared arguments\n"]
+    for j, op in enumerate(ops):
+        k = op[0]
+        key = '"h%d"' % j
+        if k == "str":
+            src.append('\temit(%s, %s(%d).String())\n' % (key, T, op[1]))
+        elif k == "valid":
+            src.append('\temit(%s, strconv.FormatBool(%s(%d).IsValid()))\n' % (key, T, op[1]))
+        elif k == "values":
+            src.append('\temit(%s, verifHVals())\n' % key)
+        elif k == "strings":
+            src.append('\t{\n\t\tvar z %s\n\t\temit(%s, strings.Join(z.Strings(), ","))\n\t}\n' % (T, key))
+        elif k == "vmap":
+            src.append('\temit(%s, verifHVMap())\n' % key)
+        elif k == "smap":
+            src.append('\temit(%s, verifHSMap())\n' % key)
+        elif k == "parse":
+            src.append('\tif v, err := shoot.ParseEnum[%s](%s); err == nil {\n\t\temit(%s, "ok "+verifDec(v))\n\t} else {\n\t\temit(%s, "err")\n\t}\n'
+                       % (T, gostr(op[1]), key, key))
+        elif k == "try":
+            src.append('\t{\n\t\tt := %s(%d)\n\t\tok := shoot.TryParseEnum(%s, &t)\n\t\temit(%s, strconv.FormatBool(ok)+" "+verifDec(t))\n\t}\n'
+                       % (T, op[2], gostr(op[1]), key))
+        elif k == "isenum":
+            src.append('\temit(%s, strconv.FormatBool(shoot.IsEnum[%s, %s](%s(%d))))\n' % (key, T, op[1], op[1], op[2]))
+        elif k == "ujson":
+            src.append('\t{\n\t\tt := %s(%d)\n\t\terr := json.Unmarshal([]byte(%s), &t)\n\t\temit(%s, verifHRes(err, t))\n\t}\n'
+                       % (T, op[2], gostr(op[1][0]), key))
+        elif k == "utext":
+            src.append('\t{\n\t\tt := %s(%d)\n\t\terr := (&t).UnmarshalText([]byte(%s))\n\t\temit(%s, verifHRes(err, t))\n\t}\n'
+                       % (T, op[2], gostr(op[1]), key))
+        elif k == "scan":
+            src.append('\t{\n\t\tt := %s(%d)\n\t\terr := (&t).Scan(%s)\n\t\temit(%s, verifHRes(err, t))\n\t}\n' % (T, op[2], op[1][0], key))
+        elif k == "enc":
+            if op[1] == "json":
+                src.append('\t{\n\t\tb, _ := json.Marshal(%s(%d))\n\t\tvar s string\n\t\tif e := json.Unmarshal(b, &s); e != nil {\n\t\t\ts = "raw:" + string(b)\n\t\t}\n'
+                           '\t\temit(%s, s)\n\t}\n' % (T, op[2], key))
+            elif op[1] == "text":
+                src.append('\t{\n\t\tb, _ := %s(%d).MarshalText()\n\t\temit(%s, string(b))\n\t}\n' % (T, op[2], key))
+            else:
+                src.append('\t{\n\t\tv, _ := %s(%d).Value()\n\t\ts, ok := v.(string)\n\t\tif !ok {\n\t\t\ts = "nonstring"\n\t\t}\n\t\temit(%s, s)\n\t}\n' % (T, op[2], key))
+        elif k == "has":
+            src.append('\temit(%s, strconv.FormatBool(%s(%d).Has(%s(%d))))\n' % (key, T, op[1], T, op[2]))
+        elif k == "add":
+            src.append('\temit(%s, verifDec(%s(%d).Add(%s(%d))))\n' % (key, T, op[1], T, op[2]))
+        elif k == "rem":
+            src.append('\temit(%s, verifDec(%s(%d).Remove(%s(%d))))\n' % (key, T, op[1], T, op[2]))
+        else:
+            raise ValueError(k)
+    return "".join(src)
+
+
+def again_go(T, win=(), suffix="2"):
+    """every getter, and String / IsValid over the window, observed once more (keys values<s> strings<s> vmap<s> smap<s> str<s>:x valid<s>:x)"""
+    src = tables_again(T, suffix)
+    if win:
+        src += "\tfor _, x := range []%s{%s} {\n" % (T, ", ".join(str(v) for v in win))
+        src += '\t\temit("str%s:"+verifDec(x), x.String())\n\t\temit("valid%s:"+verifDec(x), strconv.FormatBool(x.IsValid()))\n\t}\n' % (suffix, suffix)
+    return src
+
+
+def hist_kinds(ops):
+    return sorted(set(op[0] for op in ops))
+
+
+def oracle_c04(en, decl, win, strs=(), hist=(), scribble=None):
     T = en["T"]
     sg = KINDS[en["kind"]][0]
-    src = ['package cs\n', 'import (\n\t"sort"\n\t"strconv"\n\t"strings"\n\n\t"github.com/lopolopen/shoot"\n)\n', DEC_HELPERS[sg] % {"T": T}]
+    src = ['package cs\n', 'import (\n\t"sort"\n\t"strconv"\n\t"strings"\n\n\t"github.com/lopolopen/shoot"\n)\n', DEC_HELPERS[sg] % {"T": T},
+           HIST_HELPERS % {"T": T}, "var _ = verifHRes\n"]
     src.append("func VerifObserve(emit func(string, string)) {\n\tvar z %s\n" % T)
     src.append('\temit("decl", strings.Join([]string{%s}, ","))\n' % ", ".join('"%s=" + verifDec(%s)' % (n, n) for n, _ in decl))
     src.append('\t{\n\t\tvar p []string\n\t\tfor _, v := range z.Values() {\n\t\t\tp = append(p, verifDec(v))\n\t\t}\n\t\temit("values", strings.Join(p, ","))\n\t}\n')
@@ -824,9 +1074,12 @@ def oracle_c04(en, decl, win, strs=()):
     # spellings, then the agreement observations AGAIN
     src.append('\tfor _, s := range []string{%s} {\n\t\t_, _ = shoot.ParseEnum[%s](s)\n\t\tvar t %s\n\t\t_ = shoot.TryParseEnum(s, &t)\n\t}\n'
                % (", ".join(gostr(x) for x in strs) or '""', T, T))
-    src.append(tables_again(T))
-    src.append("\tfor _, x := range []%s{%s} {\n" % (T, ", ".join(str(v) for v in win)))
-    src.append('\t\temit("valid2:"+verifDec(x), strconv.FormatBool(x.IsValid()))\n\t}\n}\n')
+    # the generated call history, then EVERY method once more
+    src.append(history_go(T, hist))
+    src.append(again_go(T, win))
+    if scribble:
+        src.append(scribble)
+    src.append("}\n")
     return "\n".join(src)
 
 
@@ -933,12 +1186,12 @@ def pick_target(kind, decl):
     return sorted(vs)[-1]
 
 
-def oracle_c12(en, decl, flags, target, strs, jsons, sqls, ints, encs, tints):
+def oracle_c12(en, decl, flags, target, strs, jsons, sqls, ints, encs, tints, hist=()):
     T = en["T"]
     sg = KINDS[en["kind"]][0]
     imps = ['"database/sql"', '"database/sql/driver"', '"encoding"', '"encoding/json"', '"sort"', '"strconv"', '"strings"', '"time"',
             '"github.com/lopolopen/shoot"']
-    src = ['package cs\n', "import (\n\t" + "\n\t".join(imps) + "\n)\n", DEC_HELPERS[sg] % {"T": T}]
+    src = ['package cs\n', "import (\n\t" + "\n\t".join(imps) + "\n)\n", DEC_HELPERS[sg] % {"T": T}, HIST_HELPERS % {"T": T}]
     src.append('''var _ = time.Time{}
 var _ = strings.Contains
 var _ driver.Value
@@ -1180,8 +1433,9 @@ func verifRes(err error, t %(T)s) string {
         return out
     src.append(isenum_lines(ints, ""))
     src.append(isenum_lines(tints, "T/"))
-    # after the whole history of decoder calls: the agreement observations of C04 once more
-    src.append(tables_again(T))
+    # the generated call history; after it and the whole history of decoder calls above: every getter, String and IsValid once more
+    src.append(history_go(T, hist))
+    src.append(again_go(T, encs))
     # ParseEnum evaluated in a package-level initializer of 0init.go, a file that sorts before the generated one (case <id>i)
     src.append('''	if VerifInitErr == nil {
 		emit("I/init.parse", "ok "+verifDec(VerifInitParse))
@@ -1193,14 +1447,16 @@ func verifRes(err error, t %(T)s) string {
     return "\n".join(src)
 
 
-def oracle_c14(en, decl, hi, negs=(), codec=()):
+def oracle_c14(en, decl, hi, negs=(), codec=(), hist=()):
     T = en["T"]
     sg = KINDS[en["kind"]][0]
     flags = sorted(set(v for _, v in decl))
-    imps = ['"strconv"', '"strings"', '"github.com/lopolopen/shoot"'] + (['"encoding/json"'] if "json" in codec else [])
+    imps = ['"sort"', '"strconv"', '"strings"', '"github.com/lopolopen/shoot"'] + (['"encoding/json"'] if "json" in codec else [])
     names = [trim(T, n) for n, _ in decl]
     spell = names[:6] + [names[0].lower(), "%s, %s" % (names[0], names[-1]), "nosuch", ""]
-    src = ['package cs\n', 'import (\n\t' + "\n\t".join(sorted(imps)) + '\n)\n', DEC_HELPERS[sg] % {"T": T}]
+    src = ['package cs\n', 'import (\n\t' + "\n\t".join(sorted(imps)) + '\n)\n', DEC_HELPERS[sg] % {"T": T}, HIST_HELPERS % {"T": T},
+           "var _ = verifHRes\n"]
+    calls = history_go(T, hist) + again_go(T)
     hist = ""
     if "text" in codec:
         hist += '''	for n := hi - 1; n >= 0; n-- {
@@ -1249,7 +1505,7 @@ def oracle_c14(en, decl, hi, negs=(), codec=()):
 		var t %(T)s
 		_ = shoot.TryParseEnum(s, &t)
 	}
-	{
+%(calls)s	{
 		var z %(T)s
 		var p []string
 		for _, v := range z.Values() {
@@ -1288,7 +1544,7 @@ def oracle_c14(en, decl, hi, negs=(), codec=()):
 		emit("rem:"+verifDec(f), r.String())
 	}
 }
-''' % {"hi": hi, "T": T, "flags": ", ".join(str(v) for v in flags), "hist": hist, "spell": ", ".join(gostr(x) for x in spell),
+''' % {"hi": hi, "T": T, "flags": ", ".join(str(v) for v in flags), "hist": hist, "calls": calls, "spell": ", ".join(gostr(x) for x in spell),
        "negs": ('\t{\n\t\tvar p []string\n\t\tfor _, x := range []%s{%s} {\n\t\t\tp = append(p, x.String())\n\t\t}\n'
                 '\t\temit("nstrs", strings.Join(p, "|"))\n\t}\n' % (T, ", ".join(str(v) for v in negs))) if negs else "",
        "decl": ", ".join('"%s=" + verifDec(%s)' % (n, n) for n, _ in decl)})
